@@ -388,7 +388,12 @@ class UWorld:
             if 'watchdog' in str(e):
                 raise Hang(str(e)[:300])
             raise
-        if not self.sq.alive():
+        if not self.sq.alive() or not self.sq.live_slots():
+            # the control socket closes a moment before the process can be reaped (ASan is still writing its report)
+            try:
+                self.sq.proc.wait(timeout=90)
+            except Exception:
+                pass
             raise SquidDied()
 
     def advance(self, ms):
@@ -636,8 +641,15 @@ def run_shard(ctx, shard, nshards, tier, t_end, replay_cases=None):
         if st['w'] is not None:
             res['kicks'] += st['w'].sq.kicks
             st['w'].stop()
-        st['w'] = UWorld(ctx, shard)
-        st['w'].start()
+        for attempt in (1, 2):
+            st['w'] = UWorld(ctx, shard)
+            try:
+                st['w'].start()
+                break
+            except HarnessError as e:
+                st['w'] = None
+                if attempt == 2 or 'not ready' not in str(e):
+                    raise
         res['starts'] += 1
         return st['w']
 
@@ -804,7 +816,8 @@ RULE = ('distinct datagrams / pending-reply cases of the mutation space (seed, m
 def run(ctx):
     ls.build_squid(ctx)
     nshards = ctx.ncpu
-    t_end = ctx.t0 + ctx.deadline_s - (25 if ctx.quick else 60)
+    # global tier deadline; if the build step alone ate most of it (first build of a changed tree: mutant / fix verification), still allow a minimal run
+    t_end = max(ctx.t0 + ctx.deadline_s - (25 if ctx.quick else 60), time.time() + (110 if ctx.quick else 600))
     parts = ls.run_sharded(ctx, lambda shard, items: run_shard(ctx, shard, nshards, ctx.tier, t_end), list(range(nshards)), nshards)
     dk, nk = set(), set()
     tot = {'evaluations': 0, 'kicks': 0, 'starts': 0, 'probes': 0, 'phase1': 0, 'phase2': 0,
